@@ -748,6 +748,7 @@ type Operands struct {
 	T       string `json:"t"`
 	Vals    []Z    `json:"vals"`
 	Core    []Z    `json:"core"`
+	Must    [][]Z  `json:"must"`
 	Pairs   [][]Z  `json:"pairs"`
 	Amounts []Z    `json:"amounts"`
 }
@@ -863,16 +864,23 @@ func cmdTrace(prop, opsPath, outPath string, pairsPerType int) {
 		core := zsToBig(o.Core)
 		amounts := zsToBig(o.Amounts)
 		// --- operand pairs: spec pairs, core x core, then seeded random
-		var spec, cross []pair
+		var must, spec, cross []pair
+		sortPairs := func(ps []pair) {
+			sort.Slice(ps, func(i, j int) bool {
+				if c := ps[i].a.Cmp(ps[j].a); c != 0 {
+					return c < 0
+				}
+				return ps[i].b.Cmp(ps[j].b) < 0
+			})
+		}
+		for _, p := range o.Must {
+			must = append(must, pair{fromZ(p[0]), fromZ(p[1])})
+		}
 		for _, p := range o.Pairs {
 			spec = append(spec, pair{fromZ(p[0]), fromZ(p[1])})
 		}
-		sort.Slice(spec, func(i, j int) bool {
-			if c := spec[i].a.Cmp(spec[j].a); c != 0 {
-				return c < 0
-			}
-			return spec[i].b.Cmp(spec[j].b) < 0
-		})
+		sortPairs(must)
+		sortPairs(spec)
 		for _, a := range core {
 			for _, b := range core {
 				cross = append(cross, pair{a, b})
@@ -880,8 +888,9 @@ func cmdTrace(prop, opsPath, outPath string, pairsPerType int) {
 		}
 		rng.Shuffle(len(spec), func(i, j int) { spec[i], spec[j] = spec[j], spec[i] })
 		rng.Shuffle(len(cross), func(i, j int) { cross[i], cross[j] = cross[j], cross[i] })
-		var pairs []pair
-		// budget split: 35% spec straddle pairs, 35% core cross product, rest random
+		// the limit pairs always; of the rest of the budget 35% product-straddling pairs, 35% core cross
+		// product, the remainder random
+		pairs := append([]pair(nil), must...)
 		take := func(src []pair, n int) {
 			if n > len(src) {
 				n = len(src)
@@ -890,7 +899,7 @@ func cmdTrace(prop, opsPath, outPath string, pairsPerType int) {
 		}
 		take(spec, pairsPerType*35/100)
 		take(cross, pairsPerType*35/100)
-		for len(pairs) < pairsPerType {
+		for target := len(must) + pairsPerType; len(pairs) < target; {
 			var a, b *big.Int
 			switch rng.Intn(4) {
 			case 0:
